@@ -538,5 +538,6 @@ func init() {
 			Rule:   "patterns printed from random ASTs over literals (incl. escapes \\x41 \\x{e9}), classes ([ab] [^a] ranges, POSIX [[:alpha:]] …, \\d \\w \\s and negations, \\pL, .), anchors ^ $ \\A \\z \\b \\B, alternation with empty branches, capturing / named (?P<n>) / non-capturing / flag groups (?i: ?s: ?m: ?-s:), greedy and lazy * + ? {m} {m,n} {m,} applied only to non-nullable atoms, optional leading (?i)/(?s)/(?m); inputs of 0-13 items over ASCII, multi-byte (é É 日 😀 U+212A U+017F U+00A0 U+FFFD) and invalid UTF-8 pieces (\\xff, truncated and overlong sequences, surrogate, > U+10FFFF); n in {-1,0,1,2,3}; patterns either engine rejects are skipped and counted. non-trivial = regexp finds a match; distinct by (pattern, input). Oracle: all 21 methods of compat.Matcher (8 find-all methods x 5 n) on compat.Compile(p, RE2) vs regexp.Compile(p), reflect.DeepEqual incl. nil-ness; regexp2's single-position attempt at every rune position vs regexp's \\A(?s:.{p})(P). Correspondence: Lean compatForEach, findAll, stdAll over that table vs compat.FindAllStringSubmatchIndex, compat.FindAllStringIndex, regexp.FindAllStringIndex",
 			Corpus: corpus, N: c.N(3000, 100000), Gen: c06GenCase, Check: c06Check, Batch: 1000,
 		})
+		c06MethodsLeg(c)
 	})
 }
